@@ -2533,8 +2533,13 @@ hwloc___xml_v2export_distances(hwloc__xml_export_state_t parentstate, struct hwl
   }
   sprintf(tmp, "%lu", kind);
   state.new_prop(&state, "kind", tmp);
-  if (dist->name)
-    state.new_prop(&state, "name", dist->name);
+  if (dist->name) {
+    char *name = hwloc__xml_export_safestrdup(dist->name);
+    if (name) {
+      state.new_prop(&state, "name", name);
+      free(name);
+    }
+  }
 
   if (!dist->different_types) {
     state.new_prop(&state, "indexing",
@@ -2709,7 +2714,11 @@ hwloc__xml_export_memattrs(hwloc__xml_export_state_t state, hwloc_topology_t top
       continue;
 
     state->new_child(state, &mstate, "memattr");
-    mstate.new_prop(&mstate, "name", imattr->name);
+    {
+      char *name = hwloc__xml_export_safestrdup(imattr->name);
+      mstate.new_prop(&mstate, "name", name ? name : "");
+      free(name);
+    }
     snprintf(tmp, sizeof(tmp), "%lu", imattr->flags);
     mstate.new_prop(&mstate, "flags", tmp);
 
